@@ -327,7 +327,9 @@ class KeyWorld:
         elif mech in ("CKM_CONCATENATE_BASE_AND_DATA", "CKM_CONCATENATE_DATA_AND_BASE"):
             if not secret:
                 return None
-            m["p"] = {"strdata": "d5" * 8}
+            # data of 8 / 16 / 40 bytes and (below) a requested length that is absent, shorter than, equal to or longer than the data part
+            dlen = (8, 16, 40)[oi % 3]
+            m["p"] = {"strdata": "d5" * dlen}
         elif mech == "CKM_AES_ECB_ENCRYPT_DATA":
             if base.kind != "aes":
                 return None
@@ -347,6 +349,10 @@ class KeyWorld:
         tpl = T(("CKA_CLASS", "CKO_SECRET_KEY"), ("CKA_KEY_TYPE", "CKK_GENERIC_SECRET"), ("CKA_TOKEN", False), ("CKA_PRIVATE", False))
         if not mech.startswith("CKM_CONCATENATE"):
             tpl.append(A("CKA_VALUE_LEN", 16))
+        elif mech != "CKM_CONCATENATE_BASE_AND_KEY":
+            want = (None, 8, 16, dlen)[(oi // 3) % 4]
+            if want is not None:
+                tpl.append(A("CKA_VALUE_LEN", want))
         tpl += self.flags_tpl(sens, extr, extra)
         tpl = self.inject(tpl, forb)
         r = self.w.C_DeriveKey(s=self.s, mech=m, key=base.handle, tpl=tpl)
